@@ -62,6 +62,9 @@ def check(rep):
     from vf.harness import pinlemma
 
     pinlemma.fold(rep, "C04")
+    from vf.harness import punctlemma
+
+    punctlemma.fold(rep, "C04")
     # annotate
     for name, params in (("annotate_plain", {"M": 2, "K": 0, "quick": True, "modes": ["unchecked", "wrap"]}), ("annotate_source", {"M": 2, "K": 3, "quick": True, "modes": ["unchecked"]}), ("annotate_skip", {"M": 1, "K": 0, "quick": True, "modes": ["skip"]})):
         agg = common.explore_split("vf.harness.c09", params, depth=4)
@@ -120,6 +123,10 @@ def replay_file(path):
         from vf.harness import pinlemma
 
         return pinlemma.replay(r)
+    if r.get("kind") == "punct":
+        from vf.harness import punctlemma
+
+        return punctlemma.replay(r)
     if r.get("kind") == "text":
         from vf.harness import c02
 
